@@ -21,4 +21,13 @@ def rule_window(ctx):
     protocol.reader_rows_table(ctx, "O7.1", {"window"}, "validate()")
 
 
-RULES = [rule_window]
+def rule_until(ctx):
+    """O7.3: the command line's --until reaches the API limit unchanged (-1 = no limit, 0 = nothing validated)."""
+    from .c18 import rule_until as until_table
+
+    until_table(ctx)
+    ctx.res.rule_instances["O7.3"] = ctx.res.rule_instances.get("O18.4", 0)
+    ctx.res.minimum("O7.3", 1)
+
+
+RULES = [rule_window, rule_until]
